@@ -197,6 +197,8 @@ pub enum Op {
     Collect { t: u16 },
     RangeModify { t: u16, l: u16, r: u16, m: u32 },
     RangeAggregate { t: u16, l: u16, r: u16 },
+    /// `count` insertions in one op (positions derived from `v`): builds large treaps in few ops
+    Bulk { t: u16, count: u16, v: u32, mode: u8 },
 }
 
 #[derive(Clone, Debug, Hash, Serialize, Deserialize, PartialEq)]
@@ -204,6 +206,9 @@ pub struct Case {
     /// 0 uniform u32, 1 tiny alphabet {0,1,2} (ties), 2 increasing, 3 decreasing, 4 alternating extremes
     pub policy: u8,
     pub ops: Vec<Op>,
+    /// cap on the length of one treap (0 = the default small scope, 64)
+    #[serde(default)]
+    pub max_len: u16,
 }
 
 pub const MAX_POOL: usize = 6;
@@ -304,6 +309,7 @@ pub fn run_case(case: &Case) -> CaseResult {
     let mut st = CaseStats::default();
     st.size = case.ops.len() as u64;
     let mut ip = Interp { pool: vec![Slot { t: Treap::new(), m: vec![] }], next_id: 0, counter: 0, policy: case.policy };
+    let max_len: usize = if case.max_len == 0 { MAX_LEN } else { case.max_len as usize };
     st.label(match case.policy % 5 {
         0 => "prio-uniform",
         1 => "prio-tiny-alphabet",
@@ -337,7 +343,7 @@ pub fn run_case(case: &Case) -> CaseResult {
             }
             Op::InsertAt { t, pos, v } => {
                 let t = pick(*t, np);
-                if ip.pool[t].m.len() < MAX_LEN {
+                if ip.pool[t].m.len() < max_len {
                     if pending_before(&ip, t) {
                         st.nontrivial = true;
                         st.label("structural-op-with-pending-lazy");
@@ -351,7 +357,7 @@ pub fn run_case(case: &Case) -> CaseResult {
             }
             Op::InsertPrio { t, pos, v, prio } => {
                 let t = pick(*t, np);
-                if ip.pool[t].m.len() < MAX_LEN {
+                if ip.pool[t].m.len() < max_len {
                     if pending_before(&ip, t) {
                         st.nontrivial = true;
                         st.label("structural-op-with-pending-lazy");
@@ -454,7 +460,7 @@ pub fn run_case(case: &Case) -> CaseResult {
                     if u >= t {
                         u += 1;
                     }
-                    if ip.pool[t].m.len() + ip.pool[u].m.len() <= MAX_LEN {
+                    if ip.pool[t].m.len() + ip.pool[u].m.len() <= max_len {
                         if pending_before(&ip, t) || pending_before(&ip, u) {
                             st.nontrivial = true;
                             st.label("structural-op-with-pending-lazy");
@@ -517,6 +523,36 @@ pub fn run_case(case: &Case) -> CaseResult {
                     }
                     touched.push(t);
                 }
+            }
+            Op::Bulk { t, count, v, mode } => {
+                let t = pick(*t, np);
+                let room = max_len.saturating_sub(ip.pool[t].m.len());
+                let count = (*count as usize).min(room);
+                let mut x = *v as u64 | 1;
+                for k in 0..count {
+                    x = x.wrapping_mul(6364136223846793005).wrapping_add(1442695040888963407);
+                    let len = ip.pool[t].m.len();
+                    let pos = match mode % 4 {
+                        0 => len,
+                        1 => 0,
+                        2 => len / 2,
+                        _ => ((x >> 33) as usize) % (len + 1),
+                    };
+                    let it = ip.fresh((x >> 20) as u32);
+                    ip.pool[t].m.insert(pos, (it.id, it.val));
+                    if k % 2 == 0 {
+                        ip.pool[t].t.insert_at(pos, it);
+                    } else {
+                        let mut node = TreapNode::new(it);
+                        node.priority = ip.prio((x >> 7) as u32);
+                        let (l, r) = TreapNode::split_at(ip.pool[t].t.root.take(), pos);
+                        ip.pool[t].t.root = TreapNode::merge(TreapNode::merge(l, Some(Box::new(node))), r);
+                    }
+                }
+                if ip.pool[t].m.len() > 1000 {
+                    st.label("treap-longer-than-1000");
+                }
+                touched.push(t);
             }
             Op::RangeAggregate { t, l, r } => {
                 let t = pick(*t, np);
@@ -594,7 +630,17 @@ pub fn op() -> impl Strategy<Value = Op> {
 }
 
 pub fn case(max_ops: usize) -> impl Strategy<Value = Case> {
-    (0u8..5, prop::collection::vec(op(), 0..max_ops)).prop_map(|(policy, ops)| Case { policy, ops })
+    (0u8..5, prop::collection::vec(op(), 0..max_ops)).prop_map(|(policy, ops)| Case { policy, ops, max_len: 0 })
+}
+
+/// few, short histories on long sequences (the walk after every op is O(n log n))
+pub fn case_large(max_len: u16, max_ops: usize) -> impl Strategy<Value = Case> {
+    let bulk = (sel(), 50u16..600, any::<u32>(), 0u8..4).prop_map(|(t, count, v, mode)| Op::Bulk { t, count, v, mode });
+    let any_op = prop_oneof![1 => bulk, 6 => op()];
+    (prop_oneof![Just(0u8), 0u8..5], any::<u32>(), 0u8..4, prop::collection::vec(any_op, 0..max_ops)).prop_map(move |(policy, v, mode, mut ops)| {
+        ops.insert(0, Op::Bulk { t: 0, count: max_len / 2, v, mode });
+        Case { policy, ops, max_len }
+    })
 }
 
 // ---------------------------------------------------------------------------------------------
@@ -631,5 +677,5 @@ pub fn decode(data: &[u8]) -> Option<Case> {
             break;
         }
     }
-    Some(Case { policy, ops })
+    Some(Case { policy, ops, max_len: 0 })
 }
